@@ -204,7 +204,7 @@ func tokenMutate(src string, r interface{ Intn(int) int }) string {
 }
 
 func runC03(c *run.Ctx) {
-	user := ref.UserFuns()
+	user := append(ref.UserFuns(), ref.Twice())
 	opt := ref.GenOpt{MaxDepth: 5, PFail: 0.06, PSugar: 0.7, PBoundary: 0.25, PGroup: 0.05, UserFuns: true}
 	n := c.Pick(6000, 200000)
 	for i := 0; i < n; i++ {
